@@ -349,3 +349,52 @@ pub fn replay<S: Sys>(sys: &S, path: &[u32], op: Option<u32>, enabled: crate::ct
 pub fn parse_idx_list(s: &str) -> Vec<u32> {
     s.split(',').filter(|x| !x.is_empty()).filter_map(|x| x.trim().parse().ok()).collect()
 }
+
+/// Run the BFS for one configuration and fold the result into the engine report, with the
+/// non-vacuity cross-check against the closed-form number of abstract states.
+pub fn explore_and_report<S: Sys>(
+    sys: &S,
+    rep: &mut crate::ctx::EngineReport,
+    threads: usize,
+    caps: &Caps,
+    abs_want: Option<u64>,
+    layouts: Option<u64>,
+) -> BfsOut {
+    use crate::json::J;
+    let mut cx = rep.cx.fork();
+    cx.here.config = sys.config();
+    let t0 = Instant::now();
+    let out = bfs(sys, threads, caps, &mut cx);
+    let abs: std::collections::HashSet<Vec<(u8, u8, u8)>> = out.states.iter().map(|s| s.snap.abstracted()).collect();
+    if let Some(want) = abs_want {
+        if out.capped.is_none() && cx.total_violations() == 0 && abs.len() as u64 != want {
+            cx.machinery(format!(
+                "vacuity: {} distinct abstract states visited, closed form says {want} ({})",
+                abs.len(),
+                cx.here.config
+            ));
+        }
+    }
+    if let Some(c) = &out.capped {
+        rep.caps_hit.push(format!("{}: {c}", cx.here.config));
+    }
+    let mut j = J::obj()
+        .set("config", cx.here.config.as_str())
+        .set("ops_in_alphabet", sys.n_ops())
+        .set("states", out.states.len())
+        .set("abstract_states", abs.len())
+        .set("transitions", out.transitions)
+        .set("max_depth", out.max_depth as u64)
+        .set("wall_s", t0.elapsed().as_secs_f64());
+    if let Some(w) = abs_want {
+        j.put("abstract_closed_form", w);
+    }
+    if let Some(l) = layouts {
+        j.put("layouts_closed_form", l);
+    }
+    rep.configs.push(j);
+    rep.states += out.states.len() as u64;
+    rep.transitions += out.transitions;
+    rep.cx.merge(cx);
+    out
+}
